@@ -272,8 +272,16 @@ def c20_execute(trace, tier, res):
             counters.hit("skip.goal_unreachable_in_topology")
             res["counters"] = dict(counters)
             return res
-        adv = int(env.get_minimum_hops())
-        ub = float(env.get_score_upper_bound())
+        try:
+            adv = int(env.get_minimum_hops())
+            ub = float(env.get_score_upper_bound())
+        except Exception as e:
+            raise Violation("C20.hops", "the environment could not advertise "
+                            "its minimum hops / score upper bound for a "
+                            "valid scenario",
+                            error=f"{type(e).__name__}: {e}"[:300],
+                            sensitive=sorted(cfg.sensitive),
+                            topology=cfg.topology)
         counters.hit("probe.hops_checked")
         sens_subnets = {a[0] for a in cfg.sensitive}
         if len(sens_subnets) >= 2:
@@ -345,8 +353,14 @@ def c20_execute(trace, tier, res):
                 best = total
             # the bound is advertised by the environment at any time: ask
             # again after the episode (and mid-episode states were passed)
-            ub_after = float(env.get_score_upper_bound())
-            adv_after = int(env.get_minimum_hops())
+            try:
+                ub_after = float(env.get_score_upper_bound())
+                adv_after = int(env.get_minimum_hops())
+            except Exception as e:
+                raise Violation("C20.hops", "the environment could not "
+                                "advertise its minimum hops / score upper "
+                                "bound after an episode",
+                                error=f"{type(e).__name__}: {e}"[:300])
             counters.hit("probe.bound_requeried_after_episode")
             if adv_after > ref:
                 raise Violation("C20.hops", "the minimum hop count advertised"
